@@ -174,15 +174,25 @@ def reinit (u : Universe) : Nat → St → Nat → St
       match k with
       | .nested c' =>
         let x := s.inst i
-        let oldpy := match x.dressed.lookup f with
-          | some j => (s.inst j).py
+        let old : Option Inst := (x.dressed.lookup f).map s.inst
+        let oldpy := match old with
+          | some o => o.py
+          | none => []
+        -- "preserve pure python attributes" copies every attribute the fresh object lacks: also the cached referents of
+        -- the old object's REFERENCE fields (the fresh object has dressed its nested parts only)
+        let oldRefs : List (String × Nat) := match old with
+          | some o => o.dressed.filter fun e => match fkind (clsOf u c') e.1 with
+              | some (.ref _) => true
+              | _ => false
           | none => []
         let (j, s1) := s.addInst { cls := c', loc := x.loc.sub f, dressed := [], movable := true, py := oldpy }
         let s2 := reinit u fuel s1 j
         -- `setattr(self, pyname, vv)`: goes through `__set__` with a dressed value at the same memory area: no copy, a new
-        -- dressed object that takes over vv's attributes and is not movable
+        -- dressed object that takes over vv's attributes, is not movable, and is re-initialised from its xobject (which
+        -- validates the reference caches it took over)
         let y := s2.inst j
-        let (jn, s3) := s2.addInst { cls := c', loc := x.loc.sub f, dressed := y.dressed, movable := false, py := y.py }
+        let (jn, s3) := s2.addInst { cls := c', loc := x.loc.sub f, dressed := y.dressed ++ oldRefs, movable := false, py := y.py }
+        let s3 := reinit u fuel s3 jn
         let x2 := s3.inst i
         s3.setInst i { x2 with dressed := (x2.dressed.filter (·.1 != f)) ++ [(f, jn)] }
       | .ref _ =>
